@@ -27,6 +27,9 @@ import Rtp.Model.VP9
 import Rtp.Model.H264
 import Rtp.Pred.C10
 import Rtp.Pred.C12
+import Rtp.Model.AV1Pay
+import Rtp.Model.AV1Depack
+import Rtp.Spec.Av1Rtp
 namespace Rtp.Model.Pipeline
 open Rtp Rtp.Model
 
@@ -176,6 +179,34 @@ def vp9Pay : Pay VP9Pay := fun st b x => vp9Payload st b (some x)
 /-- `codecs.VP9Packet.Unmarshal` on one reused receiver -/
 def vp9Depack : Depack VP9Packet := fun r p => vp9Unmarshal r (some p)
 
+/-- `codecs.AV1Payloader` (stateless) -/
+def av1Pay : Pay Unit := fun _ b x => (AV1.payload b x, ())
+
+/-- `codecs.AV1Depacketizer.Unmarshal` on one reused receiver (state: the fragment buffer and the
+    Z / Y / N flags of the last packet) -/
+def av1Depack : Depack AV1.DSt := fun d p => AV1.depUnmarshal d p
+
+/-! ### AV1 temporal units as lists of OBUs (the form C13 quantifies over) -/
+
+/-- one temporal unit handed to `Packetize`: OBUs in the low-overhead bitstream format -/
+structure AV1Frame where
+  obus : List Spec.Av1Rtp.Obu
+  samples : UInt32 := 0
+  now : Int64 := 0
+
+namespace AV1Frame
+def frameIn (fr : AV1Frame) : FrameIn :=
+  { frame := Spec.Av1Rtp.serialise fr.obus, samples := fr.samples, now := fr.now }
+
+/-- what AV1Depacketizer must hand back: the OBUs in order, temporal delimiters and tile lists
+    removed, every OBU with its size field -/
+def expected (fr : AV1Frame) : Bytes := (Spec.Av1Rtp.normaliseSized fr.obus).flatten
+
+/-- C13's hypotheses (header fields in range, every OBU but the last carries its size, sizes
+    below 2^56) and at least one OBU -/
+def wf (fr : AV1Frame) : Bool := !fr.obus.isEmpty && Spec.Av1Rtp.obusWF fr.obus
+end AV1Frame
+
 /-! ### H264 frames as lists of NAL units (the form C10 quantifies over) -/
 
 /-- one access unit handed to `Packetize`: NAL units behind 3- or 4-byte start codes, or one bare
@@ -252,6 +283,9 @@ def runVP8 (enable : Bool) (k : Nat) (pk : Packetizer) (r : VP8Packet) (fs : Lis
 
 def runVP9 (st : VP9Pay) (pk : Packetizer) (r : VP9Packet) (fs : List FrameIn) : List FrameObs :=
   run vp9Pay vp9Depack { pk := pk, st := st } r fs
+
+def runAV1 (pk : Packetizer) (d : AV1.DSt) (fs : List FrameIn) : List FrameObs :=
+  run av1Pay av1Depack { pk := pk, st := () } d fs
 
 /-- a new H264Payloader; `buf` = what the receiver's fragment buffer holds -/
 def runH264 (disable avc : Bool) (pk : Packetizer) (buf : Bytes) (fs : List FrameIn) : List FrameObs :=
